@@ -27,6 +27,14 @@ class Undecided(Exception):
     """machinery could not decide (exit 2); never a violation"""
 
 
+def enabled_groups():
+    """groups that take part in ./check <PID>, selftest and the manifest: specs/ENABLED, one per line
+    (a group under construction is run explicitly with --group)"""
+    p = os.path.join(VERIF, 'specs', 'ENABLED')
+    with open(p) as f:
+        return [l.strip() for l in f if l.strip() and not l.startswith('#')]
+
+
 def load_spec(group):
     path = os.path.join(VERIF, 'specs', group, 'spec.py')
     sp = importlib.util.spec_from_file_location('spec_' + group, path)
